@@ -61,3 +61,19 @@ func H_C11_Code() {
 	}
 	vrt.Assert(Code(string(long)).Validate() != nil, "code-longer-than-published-maximum-refused")
 }
+
+// H_C11_KeyTooLong: no string of exactly one byte more than the published maximum is accepted as a key, whatever its
+// bytes are (in particular whatever its split into '+'-joined parts is).
+func H_C11_KeyTooLong() {
+	vrt.Unwind(2000)
+	_, max := c11Limits("cbc/key.json")
+	vrt.Assert(max > 0, "key-schema-published")
+	s := vrt.ASCIIString("s", max+1)
+	vrt.Assert(Key(s).Validate() != nil, "key-longer-than-published-maximum-refused-whatever-its-content")
+	// and two directed shapes: parts that are each within the limit
+	part := make([]byte, 40)
+	for i := range part {
+		part[i] = 'a'
+	}
+	vrt.Assert(Key(string(part)+"+"+string(part)).Validate() != nil, "composite-key-longer-than-published-maximum-refused")
+}
